@@ -390,8 +390,9 @@ spiftool_split(const spif_charptr_t delim, const spif_charptr_t str)
                     if (quote == *pstr) {
                         quote = 0;
                     } else {
-                        /* It's a single quote inside double quotes, or vice versa.  Leave it alone. */
-                        *pdest++ = *pstr++;
+                        /* It's a single quote inside double quotes, or vice versa.  Leave it alone.
+                           (The cursor is advanced once, below.) */
+                        *pdest++ = *pstr;
                     }
                 } else {
                     quote = *pstr;
@@ -399,7 +400,7 @@ spiftool_split(const spif_charptr_t delim, const spif_charptr_t str)
                 pstr++;
             } else {
                 /* Handle any backslashes that are escaping delimiters or quotes. */
-                if ((*pstr == '\\') && (IS_DELIM(*(pstr + 1)) || IS_QUOTE(*(pstr + 1)))) {
+                if ((*pstr == '\\') && *(pstr + 1) && (IS_DELIM(*(pstr + 1)) || IS_QUOTE(*(pstr + 1)))) {
                     /* Incrementing pstr here moves us past the backslash so that the line
                        below will copy the next character to the new token, no questions asked. */
                     pstr++;
